@@ -104,6 +104,16 @@ def reference(c, X, n):
     return {w for w in gen.all_words(X.Sigma, n) if oracles.pda_accepts(X, w)}
 
 
+from gambatools.dfa_algorithms import dfa_accepts_word
+from gambatools.nfa_algorithms import nfa_accepts_word
+from gambatools.regexp_algorithms import regexp_accepts_word
+from gambatools.cfg_algorithms import cfg_accepts_word
+from gambatools.pda_algorithms import pda_accepts_word
+from gambatools.tm_algorithms import tm_accepts_word
+ACCEPTS = {'dfa': dfa_accepts_word, 'nfa': nfa_accepts_word, 'regexp': regexp_accepts_word, 'cfg': cfg_accepts_word,
+           'pda': pda_accepts_word, 'tm': tm_accepts_word}
+
+
 def judge(ctx, c, answers):
     X = build(c)
     before = snapshot(c, X)
@@ -146,6 +156,24 @@ def judge(ctx, c, answers):
                 if not set(ws) <= exp:
                     ctx.violation('enumeration-unsound', {'case': sub, 'impl': enc.words(ws), 'expected': enc.words(exp)})
                 ctx.count('pda:truncated')
+            # "... exactly the set of words that the matching acceptance test accepts": the library's own acceptance test, sampled
+            if not truncated and n == max(c['ns']) and core.digest(c['X'])[0] in '01234567':
+                acc = ACCEPTS[c['kind']]
+                Sig = sorted(oracles.rx_symbols(c['X'])) if c['kind'] == 'regexp' else sorted(X.Sigma)
+                allw = gen.all_words(Sig, n)
+                import random
+                r = random.Random(core.digest(c['X']))
+                sample = allw if len(allw) <= 40 else sorted(set(ws)) [:15] + r.sample(allw, 25)
+                for w in sample:
+                    a = call(acc, X, w, c['k'], limit=20) if c['kind'] == 'tm' else call(acc, X, w, limit=20)
+                    if a.get('ok') is None and c['kind'] != 'tm' and 'ok' not in a:
+                        ctx.violation('acceptance-test-raises', {'case': dict(sub, word=w), 'impl': a})
+                        break
+                    if bool(a.get('ok')) != (w in set(ws)):
+                        ctx.violation('enumeration-differs-from-acceptance-test', {'case': sub, 'word': w, 'accepts_word': a.get('ok'),
+                                                                                   'enumerated': w in set(ws)})
+                        break
+                ctx.count('acceptance-test-compared')
             if c['kind'] != 'tm' and gl.get('ok') != ws:
                 ctx.violation('generate-language-differs', {'case': sub, 'impl': str(gl)[:200], 'direct': enc.words(ws)})
             ctx.case({'kind': c['kind'], 'X': c['X'], 'n': n}, n >= 1 and len(ws) >= 2)
